@@ -570,6 +570,11 @@ def value_getattr(I, obj, name):
     r = hook('value_getattr', I, obj, name)
     if r is not None:
         return r
+    if isinstance(obj, E.Builtin):
+        sub = _REG.get(obj.name + '.' + name)
+        if sub is not None:
+            return sub
+        return E.Opaque(obj.name + '.' + name)
     if isinstance(obj, (list, dict, str, tuple, set, bytes, frozenset)):
         if hasattr(obj, name):
             return _native_method(obj, name)
